@@ -71,12 +71,17 @@ def endian_cases(tier):
 
 
 def mux_cases(tier):
+    """The selector sits at EVERY position of the message (first, middle, last leaf)."""
     out = []
     for sel in (U(2), U(8), en(2, "s")):
         for rest in ((U(16), I(8)), (I(12), F32), (U(8), U(8))):
             for count in (1, 2, 4):
-                for subset in ((0,), (1,), (0, 1)):
-                    out.append(("mux", {"fields": (sel,) + rest, "mux": {"signal": 0, "count": count, "on": tuple(i + 1 for i in subset)}}))
+                for selpos in (0, 1, 2):
+                    fields = list(rest)
+                    fields.insert(selpos, sel)
+                    others = [i for i in range(3) if i != selpos]
+                    for subset in ((0,), (1,), (0, 1)):
+                        out.append(("mux", {"fields": tuple(fields), "mux": {"signal": selpos, "count": count, "on": tuple(others[i] for i in subset)}}))
     return out
 
 
